@@ -511,11 +511,13 @@ def generate(ctx):
     for n in range(0, 71):
         for scheme in (0, 1, 2):
             ctx.run("kh_master", [scheme, rb(rng, n)], "len%d" % n, trivial=(n == 0))
-    for _ in range(ctx.n(40, 1500)):
+    for _ in range(ctx.n(40, 900)):
+        if not ctx.time_left():
+            break
         for scheme in (0, 1, 2):
             ctx.run("kh_master", [scheme, rb(rng, 32 if scheme == 2 else rng.choice([16, 20, 24, 28, 32, 64]))], "rand")
     # --- derivation along paths
-    for _ in range(ctx.n(60, 2500)):
+    for _ in range(ctx.n(60, 1500)):
         if not ctx.time_left():
             break
         scheme = rng.choice([0, 1, 2])
@@ -530,7 +532,9 @@ def generate(ctx):
         # the private side of the same path (feeds the commute check)
         ctx.run("kh_derive", [scheme, seed, b"", path, 0, []], "seed-%d-priv" % scheme)
     # the Cardano wallet paths
-    for _ in range(ctx.n(10, 200)):
+    for _ in range(ctx.n(10, 120)):
+        if not ctx.time_left():
+            break
         scheme = rng.choice([0, 1])
         seed = rb(rng, rng.choice([16, 20, 24, 28, 32]))
         acc, chg, idx = rng.choice([0, 1, HARD - 1]), rng.choice([0, 1, 2]), rng.choice([0, 1, 5, HARD - 1])
@@ -559,7 +563,9 @@ def generate(ctx):
             ctx.run("kh_derive", [scheme, k, cc, [], 1, [rng.randrange(HARD)]], "priv-boundary-pubchild")
         for n in (0, 31, 32, 63, 65, 96):
             ctx.run("kh_derive", [scheme, rb(rng, n), rb(rng, 32), [], 0, []], "priv-len")
-        for _ in range(ctx.n(10, 300)):
+        for _ in range(ctx.n(10, 180)):
+            if not ctx.time_left():
+                break
             kl = (rng.randrange(2**251) * 8) | 2**254
             k = kl.to_bytes(32, "little") + rb(rng, 32)
             path = [rand_idx(rng) for _ in range(rng.choice([1, 2]))]
@@ -611,7 +617,9 @@ def rand_pub(rng):
 def generate_addresses(ctx):
     rng = ctx.rng
     # --- Shelley encoders / decoders on raw keys
-    for _ in range(ctx.n(40, 800)):
+    for _ in range(ctx.n(40, 480)):
+        if not ctx.time_left():
+            break
         net = rng.randrange(2)
         pk, sk = rand_pub(rng), rand_pub(rng)
         ctx.run("ada_shelley_encode", [net, pk, sk], "valid")
@@ -644,7 +652,7 @@ def generate_addresses(ctx):
         ctx.run("ada_staking_decode", [net, OC.bech32_encode(HRPS[net][1], pl[:29]).str()], "bad-payload")
         ctx.run("ada_shelley_decode", [net, a.upper()], "upper")
     # --- Shelley wallets
-    for _ in range(ctx.n(12, 300)):
+    for _ in range(ctx.n(12, 180)):
         if not ctx.time_left():
             break
         scheme, net = rng.randrange(2), rng.randrange(2)
@@ -658,7 +666,9 @@ def generate_addresses(ctx):
     for bad_idx in (-1, 2**32):
         ctx.run("ada_shelley_wallet", [1, rb(rng, 32), 0, 0, 0, bad_idx, 0], "bad-index")
     # --- indefinite-length arrays
-    for _ in range(ctx.n(60, 1500)):
+    for _ in range(ctx.n(60, 900)):
+        if not ctx.time_left():
+            break
         l = [rng.choice([0, 1, 23, 24, 255, 256, 65535, 65536, 2**31, 2**32 - 1, 2**32, 2**63, 2**64 - 1,
                          rng.randrange(2**32)]) for _ in range(rng.randrange(0, 5))]
         ctx.run("cbor_indef_encode", [l], "rand", trivial=(l == []))
@@ -674,7 +684,9 @@ def generate_addresses(ctx):
               b"\x9f\x1b\x00\x00\x00\x00\x00\x00\x00\x01\xff", b"\x9f\x1b\x00\x00\xff", b"\x80\x00\xff", b"\x9f\x00\x00"):
         ctx.run("cbor_indef_decode", [b], "directed", trivial=(b == b""))
     # --- Byron addresses
-    for _ in range(ctx.n(25, 500)):
+    for _ in range(ctx.n(25, 300)):
+        if not ctx.time_left():
+            break
         pub, cc, key = rand_pub(rng), rb(rng, 32), rb(rng, 32)
         path = [rng.choice([0, 1, HARD, HARD + 1, 2**32 - 1, rng.randrange(2**32)]) for _ in range(rng.choice([0, 1, 2, 2, 3]))]
         ctx.run("ada_byron_encode_icarus", [pub, cc], "valid")
@@ -696,7 +708,9 @@ def generate_addresses(ctx):
     def env(payload, crc=None, tag=24):
         c = zlib.crc32(payload) & 0xffffffff if crc is None else crc
         return Base58Encoder.Encode(cbor2.dumps([cbor2.CBORTag(tag, payload), c]))
-    for _ in range(ctx.n(12, 200)):
+    for _ in range(ctx.n(12, 120)):
+        if not ctx.time_left():
+            break
         rh, encp = rb(rng, 28), rb(rng, rng.choice([17, 20, 30]))
         good = cbor2.dumps([rh, {1: cbor2.dumps(encp)}, 0])
         cases = [("ok-envelope", env(good)), ("bad-crc", env(good, crc=rng.randrange(2**32))), ("bad-tag", env(good, tag=25)),
@@ -713,12 +727,14 @@ def generate_addresses(ctx):
                  ("trailing", Base58Encoder.Encode(cbor2.dumps([cbor2.CBORTag(24, good), zlib.crc32(good)]) + b"\x00"))]
         for tag, a in cases:
             ctx.run("ada_byron_decode", [a], tag)
-    for _ in range(ctx.n(10, 250)):
+    for _ in range(ctx.n(10, 150)):
+        if not ctx.time_left():
+            break
         scheme = rng.randrange(2)
         ctx.run("ada_icarus_wallet", [scheme, rb(rng, rng.choice([16, 24, 32])), rng.choice([0, 1, HARD - 1]), rng.randrange(2),
                                       rng.choice([0, 1, HARD - 1, HARD, 2**32 - 1, rng.randrange(2**32)])], "bip44-byron-%d" % scheme)
     # --- Byron-legacy wallets: address, path recovery
-    for _ in range(ctx.n(10, 250)):
+    for _ in range(ctx.n(10, 150)):
         if not ctx.time_left():
             break
         seed = rb(rng, 32)
@@ -739,6 +755,8 @@ def generate_addresses(ctx):
     for which in (0, 1, 2):
         ctx.run("byron_index_objects", [rb(rng, 32), rng.randrange(HARD), rng.randrange(HARD), which], "objects")
     for n in (16, 20, 24, 28, 32):
-        for _ in range(ctx.n(2, 40)):
+        for _ in range(ctx.n(2, 24)):
+            if not ctx.time_left():
+                break
             ctx.run("cardano_seed_gen", [rb(rng, n)], "entropy-%d" % n)
 
